@@ -202,6 +202,8 @@ def jobs(pid, tier):
         for w in ('cudd', 'cudd_zdd', 'sylvan', 'buddy'):
             J.append(Job('pyx', dict(which=w), need_outcomes=['compared'], procs=4))
             J.append(Job('pyx_refs', dict(which=w), need_outcomes=['lifecycle'], procs=2))
+        for fn in ('_forall', '_exist', '_disjoin', '_conjoin', '_compose', 'add_var'):
+            J.append(Job('pyx_paths', dict(which=fn), need_outcomes=['returned'], procs=2))
     return J
 
 
